@@ -128,7 +128,10 @@ class ReqPlan(Plan):
         """Mark each recorded arrival as answered ('sent', t) / failed ('failed',) from the node-side event history."""
         by_ev = dict((a['ev'], a) for a in self.arrivals)
         open_ = {}
+        last_t = 0.0
         for i, e in enumerate(events):
+            if e[0] in ('node_recv', 'node_send') and isinstance(e[-1], float):
+                last_t = e[-1]
             if e[0] == 'node_recv':
                 a = by_ev.get(i)
                 if a is not None:
@@ -146,6 +149,7 @@ class ReqPlan(Plan):
                     if a['answered'] is None:
                         a['answered'] = ('failed',)
                         a['answered_ev'] = i
+                        a['failed_not_before'] = last_t
         return self.arrivals
 
 
